@@ -217,7 +217,7 @@ func genArgFault(r *Rng, d *DeclSpec, p *Plan, twinCalls []Call) (f ArgFault, ok
 				cands = append(cands, i) // a value handed over as a word of its own goes past the option's validator
 				continue
 			}
-			if len(oi.O.Choices) > 0 || strings.Contains(b, "int") || strings.Contains(b, "float") || b == "duration" || b == "um" {
+			if len(oi.O.Choices) > 0 || strings.Contains(b, "int") || strings.Contains(b, "float") || b == "duration" || b == "um" || b == "us" {
 				if isFuncKind(t.Kind) && !strings.Contains(t.Kind, "int") {
 					continue
 				}
@@ -239,7 +239,7 @@ func genArgFault(r *Rng, d *DeclSpec, p *Plan, twinCalls []Call) (f ArgFault, ok
 		case len(oi.O.Choices) > 0:
 			bad = "purple"
 			f.Expect = "invalid choice"
-		case baseKind(t.Kind) == "um":
+		case baseKind(t.Kind) == "um" || baseKind(t.Kind) == "us":
 			bad = "bad1"
 		case baseKind(t.Kind) == "vv":
 			bad = "!refused"
@@ -384,7 +384,7 @@ func genArgFault(r *Rng, d *DeclSpec, p *Plan, twinCalls []Call) (f ArgFault, ok
 		var cands []optInfo
 		for _, oi := range optInfos(d) {
 			b := baseKind(oi.O.Kind)
-			if oi.O.Env != "" && !given[oi.Path] && !isFuncKind(oi.O.Kind) && (strings.Contains(b, "int") || strings.Contains(b, "float") || b == "duration") {
+			if oi.O.Env != "" && !given[oi.Path] && !isFuncKind(oi.O.Kind) && (strings.Contains(b, "int") || strings.Contains(b, "float") || b == "duration" || len(oi.O.Choices) > 0) {
 				cands = append(cands, oi)
 			}
 		}
@@ -399,6 +399,11 @@ func genArgFault(r *Rng, d *DeclSpec, p *Plan, twinCalls []Call) (f ArgFault, ok
 			f.EnvVal = "k:" + f.EnvVal // (without a colon the value part would be the empty text, a conversion boundary)
 		}
 		f.Expect = "marshal"
+		if len(oi.O.Choices) > 0 {
+			// a value that is none of the option's choices is refused wherever it comes from
+			f.EnvVal = "zz-not-a-choice"
+			f.Expect = "invalid choice"
+		}
 		return f, true
 	case "callee":
 		counts := map[string]int{}
